@@ -79,8 +79,7 @@ def valid_dft(rng, s, allow_d23=False):
     inv, one = rng.choice([(None, None), (0, 0), (1, None), (None, 1), (0, 1)])
     if s <= 19:
         axes = [0, 1, 2, -2, -3] if rank == 4 else [0, 1, -2]
-        if rank == 3 or allow_d23:
-            axes.append(None)
+        axes += [None, None]
         return DFT(rng.choice(axes), inv, one, ln, None, rank)
     return DFT(None, inv, one, ln, rng.choice([None, 0, 1, -2] + ([2] if rank == 4 else [])), rank)
 
@@ -91,7 +90,7 @@ def valid_gn(rng, s, findings_ok=False):
     g = rng.choice([d for d in (1, 2, 3, 4) if c % d == 0])
     if rng.random() < 0.2:
         g = c
-    eps = rng.choice([None, None, 1e-5]) if not findings_ok else rng.choice([None, 1e-5, 0.5, 0.01])
+    eps = rng.choice([None, 1e-5, 0.5, 0.01])
     if s <= 20:
         op = GN(g, c, g, g, eps)
     else:
@@ -239,6 +238,14 @@ def gen_adversarial(rng):
             nodes.append(node({"k": "CALL", "f": 0}, d=0))
         if rng.random() < 0.15:
             decl, ai = (None, s) if rng.random() < 0.5 else (s, s)
+    # a DFT read at opset <= 19 takes its axis as an attribute: an `axis` input there would be dropped by the
+    # rewrite and its initializer removed by the clean-up passes (A-ir), which the model does not track
+    for n in nodes + [m for f in funcs for m in f["nodes"]]:
+        for m in [n] + [l for b in n.get("bodies", []) for l in b]:
+            # (a proto drops the stamps, so either the stamp or a declared opset may be the one that counts)
+            cands = [x for x in (m["v"], decl, ai) + tuple(f["decl"] for f in funcs) if x is not None]
+            if m["op"]["k"] == "DFT" and m["op"]["axisIn"] is not None and cands and min(cands) <= 19:
+                m["op"]["axis"], m["op"]["axisIn"] = m["op"]["axisIn"], None
     return {"decl": decl, "ai": ai, "nodes": nodes, "funcs": funcs, "extra_inits": rng.choice([0, 0, 1, 3]),
             "entry": entry, "fb": rng.choice(["none", "yes", "no"]),
             "target": rng.choice([17, 18, 19, 20, 21, 22, 24, 25, 26]), "adversarial": True}
@@ -638,10 +645,7 @@ def finding_class(op, s, t) -> str:
         hidden = op["xVis"] == "s" or op["sVis"] in "ms" or op["bVis"] in "ms"
         if needs and hidden:
             return "D13b"
-        if needs and op["eps"] is not None and abs(float(op["eps"]) - 1e-5) > 1e-12:
-            return "C10-GN-EPS"
-    if op["k"] == "DFT" and crosses(s, t, 19) and op["axis"] is None and op["axisIn"] is None and op["rank"] != 3:
-        return "C10-DFT-AXIS"
+    # C10-DFT-AXIS (765f1d4) and C10-GN-EPS (71fb858) are fixed: no region is carved out for them any more
     return ""
 
 
@@ -650,7 +654,7 @@ def creates_values(op, s, t) -> bool:
     if t > 25 or t < 18:
         return False
     if op["k"] == "DFT":
-        return crosses(s, t, 19) and op["axis"] is not None
+        return crosses(s, t, 19)  # since 765f1d4 the adapter always rewrites (axis default materialised)
     if op["k"] == "GN":
         return (crosses(s, t, 20) and op["hasS"] and op["hasB"] and op["xVis"] == "k" and op["sVis"] == "k"
                 and op["bVis"] == "k" and op["g"] is not None and op["g"] != op["c"] and op["g"] == op["sLen"] == op["bLen"])
